@@ -316,7 +316,16 @@ func corrCodec(prop string, outDir string, seed uint64, tier string, withEdits b
 	doValue := func(tc codecCase, p reflect.Value, kind string) {
 		svd, _ := svalDesc(p)
 		s, err, pan := marshalObs(p.Interface())
-		csM.add("("+tc.tname+", "+svd+", "+obsMarshalCoq(s, err, pan)+")", map[string]interface{}{"type": tc.t.String(), "value": fmt.Sprintf("%+v", p.Elem().Interface()), "kind": kind})
+		mMeta := map[string]interface{}{"type": tc.t.String(), "value": fmt.Sprintf("%+v", p.Elem().Interface()), "kind": kind}
+		if err == nil && pan == nil {
+			// search support: if the model disagrees with Marshal on this very value and the string Marshal wrote does not
+			// come back as the value, that is the concrete failing input (also outside the unambiguous class)
+			q0 := reflect.New(tc.t)
+			if e0, p0 := unmarshalObs(s, q0.Interface()); p0 == nil && (e0 != nil || !deepEq(p, q0)) {
+				mMeta["property_fails"] = fmt.Sprintf("Marshal(%+v) = %q; Unmarshal of it: %v %+v", p.Elem().Interface(), s, e0, q0.Elem().Interface())
+			}
+		}
+		csM.add("("+tc.tname+", "+svd+", "+obsMarshalCoq(s, err, pan)+")", mMeta)
 		csK.add("("+tc.tname+", "+svd+", "+obsMarshalCoq(s, err, pan)+")", map[string]interface{}{"type": tc.t.String(), "value": fmt.Sprintf("%+v", p.Elem().Interface()), "kind": "class statement"})
 		rep.count("m:"+tc.tname+svd, true)
 		rep.bump("marshal_" + kind)
